@@ -36,7 +36,23 @@ def flags(repo):
     rd = lambda p: open(os.path.join(repo, "renamify-core/src", p)).read()
     save = strip_comments(fn_body(rd("history.rs"), r"pub fn save\(&self\)\s*->\s*Result<\(\)>\s*\{", "History::save"))
     acq = strip_comments(fn_body(rd("lock.rs"), r"pub fn acquire\(renamify_dir: &Path\)\s*->\s*Result<Self>\s*\{", "LockFile::acquire"))
-    patch = strip_comments(fn_body(rd("undo.rs"), r"fn apply_single_patch\(.{0,200}?\)\s*->\s*Result<\(\)>\s*\{", "apply_single_patch"))
+    undo_src = rd("undo.rs")
+    # the body that reads, patches and writes one file: `patch_file` (since repo commit 657a7be `apply_single_patch` and
+    # `check_single_patch` delegate to it), else `apply_single_patch` itself
+    if re.search(r"fn patch_file\(", undo_src):
+        patch = strip_comments(fn_body(undo_src, r"fn patch_file\(.{0,200}?\)\s*->\s*Result<\(\)>\s*\{", "patch_file"))
+    else:
+        patch = strip_comments(fn_body(undo_src, r"fn apply_single_patch\(.{0,200}?\)\s*->\s*Result<\(\)>\s*\{", "apply_single_patch"))
+    undo_fn = strip_comments(fn_body(undo_src, r"pub fn undo_renaming\(.{0,200}?\)\s*->\s*Result<\(\)>\s*\{", "undo_renaming"))
+    redo_fn = strip_comments(fn_body(undo_src, r"pub fn redo_renaming\(.{0,200}?\)\s*->\s*Result<\(\)>\s*\{", "redo_renaming"))
+    i_ren = undo_fn.find("fs::rename(")
+    i_chk = undo_fn.find("check_single_patch(")
+    if i_ren < 0:
+        raise RuntimeError("translate/execflags: undo_renaming no longer renames with fs::rename")
+    i_apply = redo_fn.find("apply_plan(")
+    if i_apply < 0:
+        raise RuntimeError("translate/execflags: redo_renaming no longer calls apply_plan")
+    i_get = redo_fn.find(".get(hunk.start..hunk.end)")
     edit = strip_comments(fn_body(rd("apply.rs"), r"fn apply_content_edits_with_content\(.{0,300}?\)\s*->\s*Result<\(\)>\s*\{",
                                   "apply_content_edits_with_content"))
     if "truncate(true)" not in save and "File::create" not in save:
@@ -60,7 +76,29 @@ def flags(repo):
         raise RuntimeError("translate/execflags: apply_single_patch no longer uses fs::write")
     if "fs::rename(&temp_path, path)" not in edit:
         raise RuntimeError("translate/execflags: apply_content_edits_with_content no longer renames the temp file over the original")
+    apply_src = rd("apply.rs")
+    rollback_fn = strip_comments(fn_body(apply_src, r"fn rollback\(state: &mut ApplyState\)\s*->\s*Result<\(\)>\s*\{", "apply.rs::rollback"))
+    log_fn = strip_comments(fn_body(apply_src, r"fn log\(&mut self, message: &str\)\s*->\s*Result<\(\)>\s*\{", "ApplyState::log"))
+    apply_fn = strip_comments(fn_body(apply_src, r"pub fn apply_plan\(plan: &mut Plan, options: &ApplyOptions\)\s*->\s*Result<\(\)>\s*\{", "apply_plan"))
+    probe_fn = strip_comments(fn_body(rd("rename.rs"), r"pub fn detect_case_insensitive_fs\(path: &Path\)\s*->\s*bool\s*\{", "detect_case_insensitive_fs"))
+    if "renames_performed" not in rollback_fn and "renames_executed" not in rollback_fn:
+        raise RuntimeError("translate/execflags: rollback iterates neither renames_performed nor renames_executed")
+    i_patch = apply_fn.find("generate_reverse_patches(")
+    i_store = apply_fn.find("fs::write(&plan_path")
+    i_entry = apply_fn.find("history.add_entry(")
+    if min(i_patch, i_store, i_entry) < 0:
+        raise RuntimeError("translate/execflags: apply_plan: patches / stored plan / history entry not found")
+    late_rollback = "rollback(&mut state)" in apply_fn[i_patch:]
+    store_first = i_store < i_entry
+    store_removed = "remove_file(&plan_path)" in apply_fn
+    if len({late_rollback, store_first, store_removed}) != 1:
+        raise RuntimeError("translate/execflags: apply_plan records in an order the model has no variant for "
+                           f"(late rollback {late_rollback}, plan stored before entry {store_first}, stored plan removed on failure {store_removed})")
     return {
+        "rollbackRealPairs": "renames_executed" in rollback_fn,
+        "logErrorsIgnored": "?;" not in log_fn,
+        "historyEntryIsCommitPoint": late_rollback,
+        "probeCleanupRetried": ".close()" in probe_fn and "remove_dir_all" in probe_fn,
         "atomicHistorySave": bool(re.search(r"fs::rename\(\s*&temp_path\s*,\s*&self\.path\s*\)", save)) and ".flush()" in save,
         "publishByLink": by_link,
         "emptyLockIsStale": bool(re.search(r"is_empty\(\)\s*\{[^}]*remove_file", acq, re.S))
@@ -71,6 +109,8 @@ def flags(repo):
         "lockRedo": "LockFile::acquire" in op_redo,
         "lockReplace": "LockFile::acquire" in op_replace,
         "lockWriteFailureCleans": bool(re.search(r"if let Err\(\w+\) = file\.write_all[^}]*remove_file", acq, re.S)),
+        "undoPrevalidate": 0 <= i_chk < i_ren,
+        "redoPrevalidate": 0 <= i_get < i_apply,
         "undoViaTemp": bool(re.search(r"fs::rename\(\s*&temp_path\s*,\s*file_path\s*\)", patch)),
         "undoTempRemovedOnFailure": "fs::remove_file(&temp_path)" in patch,
         "tempRemovedOnFailure": "fs::remove_file(&temp_path)" in edit,
@@ -80,6 +120,10 @@ def flags(repo):
 
 
 DOC = {
+    "rollbackRealPairs": "apply.rs::rollback reverts the renames with the paths they were executed with (renames_executed)",
+    "logErrorsIgnored": "ApplyState::log drops a line it cannot write instead of propagating the error",
+    "historyEntryIsCommitPoint": "apply_plan: patches, stored plan (removed on failure), history entry last; a failure rolls the renames back",
+    "probeCleanupRetried": "rename.rs::detect_case_insensitive_fs closes its TempDir explicitly and retries the removal once",
     "atomicHistorySave": "history.rs::save writes `history.json.<pid>.tmp`, flushes, and renames it over history.json",
     "emptyLockIsStale": "lock.rs::acquire removes an empty / unparsable lock file as abandoned instead of failing on it",
     "publishByLink": "lock.rs::acquire writes renamify.lock.<pid>.tmp and publishes it with fs::hard_link (never visible empty)",
@@ -89,6 +133,8 @@ DOC = {
     "lockRedo": "operations/undo.rs::redo_operation takes the workspace lock",
     "lockReplace": "renamify-cli/src/replace.rs::handle_replace takes the workspace lock (unless --dry-run)",
     "lockWriteFailureCleans": "lock.rs::acquire removes the lock file again when writing its content fails",
+    "undoPrevalidate": "undo.rs::undo_renaming checks every reverse patch in memory before it touches anything",
+    "redoPrevalidate": "undo.rs::redo_renaming compares every hunk of the stored plan with the files before apply_plan",
     "undoViaTemp": "undo.rs::apply_single_patch writes a temp file and renames it over the user's file",
     "undoTempRemovedOnFailure": "undo.rs::apply_single_patch removes its temp file when a step fails",
     "offsetsChecked": "apply.rs::apply_content_edits_with_content slices with str::get (a stale offset is a content mismatch, "
